@@ -9,41 +9,48 @@ Open Scope Z_scope.
 
 (* ---------------------------------------------------------------- no_leak
    every pool class, every configuration, every history of harness operations, every fault script
-   (Exception and BaseException faults at connect, ping, checkout listener, rollback/commit; Exception
-   faults at close): if no BaseException escaped a DBAPI close(), then once every holder has dropped its
-   reference no record is checked out. *)
+   (Exception and BaseException faults at connect, ping, checkout listener, rollback/commit and close):
+   once every holder has dropped its reference no record is checked out - unless a BaseException
+   escaped close() INSIDE the `except BaseException` handler of _finalize_fairy (its
+   connection_record.invalidate(e)) while that ran as weakref callback (ghost taint_gc).  Since commits
+   51edfd0 / 356c0aa / d50803e this is the only excluded region. *)
 Theorem c26_no_leak : forall cf fl ops,
   let s := run cf ops (init cf fl) in
-  taint_close s = false -> all_released s -> inuse_count s = O.
+  taint_gc s = false -> all_released s -> inuse_count s = O.
 Proof. exact no_leak. Qed.
 Print Assumptions c26_no_leak.
 
 (* the excluded region is real: the garbage collector finalises a dropped checkout, the rollback
-   raises, the invalidation's close() raises BaseException: check-in is skipped *)
-Theorem c26_no_leak_refuted_baseexception_from_close : exists cf fl ops,
+   raises, the handler's invalidate() calls close(), which raises BaseException: the check-in (and
+   everything else in the handler) is skipped and the interpreter swallows the error *)
+Theorem c26_no_leak_refuted_baseexception_from_close_in_gc_handler : exists cf fl ops,
   let s := run cf ops (init cf fl) in
   all_released s /\ inuse_count s = 1%nat /\ checkedout cf s = 1.
 Proof.
   exists (mkcfg KQueue 1 1 false (-1) false false RRollback true), [0; 1; 2], [(OConnect, 1); (ODel 0, 1)].
   vm_compute. repeat split; auto. intros h [H|[]]; auto.
 Qed.
-Print Assumptions c26_no_leak_refuted_baseexception_from_close.
+Print Assumptions c26_no_leak_refuted_baseexception_from_close_in_gc_handler.
 
-(* since commit 51edfd0 a BaseException out of the rollback run by the weakref callback no longer
-   loses the record (formerly the refutation witness of no_leak) *)
-Example c26_ex_gc_reset_baseexception_recovers :
-  let cf := mkcfg KQueue 1 1 false (-1) false false RRollback true in
-  let s := run cf [(OConnect, 1); (ODel 0, 1)] (init cf [0; 2]) in
-  taint_close s = false /\ all_released s /\ inuse_count s = O /\ checkedout cf s = 0.
-Proof. vm_compute. repeat split; auto. intros h [H|[]]; auto. Qed.
+(* fixed regions (former refutation witnesses): BaseException out of the rollback run by the weakref
+   callback (51edfd0); two BaseExceptions out of close() during one checkout (d50803e) *)
+Example c26_ex_fixed_leaks :
+  (let cf := mkcfg KQueue 1 1 false (-1) false false RRollback true in
+   let s := run cf [(OConnect, 1); (ODel 0, 1)] (init cf [0; 2]) in
+   all_released s /\ inuse_count s = O /\ checkedout cf s = 0) /\
+  (let cf := mkcfg KQueue 1 (-1) true 0 true false RCommit true in
+   let s := run cf [(OConnect, 1)] (init cf [0; 2; 2]) in
+   all_released s /\ inuse_count s = O /\ checkedout cf s = 0).
+Proof. vm_compute. repeat split; auto; intros h []; auto; contradiction. Qed.
 
 (* ---------------------------------------------------------------- overflow_consistent (QueuePool)
    on every path (connect failures, failing pre-ping / checkout listener, errors during reset and
    close, invalidation, detach, garbage-collected checkouts) the increments and decrements of the
    overflow counter balance: checkedout() is exactly the number of records in use, idle records never
    exceed pool_size, overflow stays within [-pool_size, max_overflow] - unless a BaseException has
-   escaped close(), or escaped the reset of an explicitly returned fairy ([taint] = taint_close ||
-   taint_reset). *)
+   escaped a DBAPI close() ([taint] = taint_close || taint_gc; taint_gc is only ever set together with
+   taint_close).  The guard is coarser than what still fails: the remaining defect is the one of the
+   refutation below. *)
 Theorem c26_overflow_consistent : forall cf, kind cf = KQueue -> 0 <= psize cf -> -1 <= maxov cf ->
   forall fl ops, let s := run cf ops (init cf fl) in
   taint s = false ->
@@ -60,32 +67,26 @@ Theorem c26_no_leak_checkedout : forall cf, kind cf = KQueue -> 0 <= psize cf ->
 Proof. intros cf KQ PS MO. exact (no_leak_checkedout cf KQ PS MO). Qed.
 Print Assumptions c26_no_leak_checkedout.
 
-(* the excluded region is real: two BaseExceptions out of close() during one checkout (recycle on
-   checkout closes the stale connection: BaseException; _checkin_failed invalidates: close() again:
-   BaseException) skip the check-in: the slot is lost for good (checkedout() = 1 with nothing in use) *)
-Theorem c26_overflow_refuted_baseexception_from_close : exists cf fl ops,
+(* what still fails: the queue is full, so returning the second connection closes it; close() raises a
+   BaseException out of connection_record.checkin() at the end of _finalize_fairy, the lines that detach
+   the fairy are skipped; detach() through the stale fairy returns the (discarded) record again *)
+Theorem c26_overflow_refuted_baseexception_from_close_at_checkin : exists cf fl ops,
   kind cf = KQueue /\ 0 <= psize cf /\ -1 <= maxov cf /\
   let s := run cf ops (init cf fl) in
-  inuse_count s = O /\ all_released s /\ checkedout cf s = 1.
+  inuse_count s = O /\ checkedout cf s = -1.
 Proof.
-  exists (mkcfg KQueue 1 (-1) true 0 true false RCommit true), [0; 2; 2], [(OConnect, 1)].
-  vm_compute. repeat split; auto; try discriminate. intros h [].
-Qed.
-Print Assumptions c26_overflow_refuted_baseexception_from_close.
-
-(* second excluded region (a regression of commit 51edfd0): a BaseException out of the rollback of an
-   explicit close() now checks the record in but leaves the fairy attached to it; a later detach()
-   (or invalidate()) through that stale fairy returns the record a second time *)
-Theorem c26_overflow_refuted_baseexception_in_explicit_reset : exists cf fl ops,
-  kind cf = KQueue /\ 0 <= psize cf /\ -1 <= maxov cf /\
-  let s := run cf ops (init cf fl) in
-  taint_close s = false /\ inuse_count s = O /\ checkedout cf s = -1.
-Proof.
-  exists (mkcfg KQueue 1 1 false (-1) false false RRollback true), [0; 2],
-    [(OConnect, 1); (OClose 0, 1); (ODetach 0, 1)].
+  exists (mkcfg KQueue 1 1 false (-1) false false RRollback true), [0; 0; 0; 0; 2],
+    [(OConnect, 1); (OConnect, 1); (OClose 0, 1); (OClose 1, 1); (ODetach 1, 1)].
   vm_compute. repeat split; auto; try easy.
 Qed.
-Print Assumptions c26_overflow_refuted_baseexception_in_explicit_reset.
+Print Assumptions c26_overflow_refuted_baseexception_from_close_at_checkin.
+
+(* fixed region (356c0aa): BaseException out of the rollback of an explicit close(), then detach() *)
+Example c26_ex_fixed_stale_fairy :
+  let cf := mkcfg KQueue 1 1 false (-1) false false RRollback true in
+  let s := run cf [(OConnect, 1); (OClose 0, 1); (ODetach 0, 1)] (init cf [0; 2]) in
+  taint s = false /\ inuse_count s = O /\ checkedout cf s = 0.
+Proof. vm_compute. auto. Qed.
 
 (* ---------------------------------------------------------------- no_dead_reuse
    PARTIAL: only the decision kernel is proved for all states: whenever get_connection hands back the
@@ -94,8 +95,8 @@ Print Assumptions c26_overflow_refuted_baseexception_in_explicit_reset.
    start, and within the recycle time.  Missing: the invariant that lifts this to whole histories (the
    record's start stamp is the connection's creation stamp; a closed connection is in no record; every
    pool-wide invalidation / soft invalidation leaves a stamp strictly greater than the start stamps of
-   the connections it concerns under a strictly increasing clock) - see LEVEL_NOTE.  The refutations
-   below show the two regions where the full statement fails. *)
+   the connections it concerns under a strictly increasing clock) - see LEVEL_NOTE.  The refutation
+   below shows the region where the full statement fails (equal time stamps). *)
 Theorem c26_no_dead_reuse_kernel_partial : forall cf r s c s',
   get_connection cf r s = (Ok c, s') -> nconns s' = nconns s ->
   r_dbc s r = Some c /\ r_dbc s' r = Some c /\
@@ -104,16 +105,13 @@ Theorem c26_no_dead_reuse_kernel_partial : forall cf r s c s',
 Proof. exact get_connection_kernel. Qed.
 Print Assumptions c26_no_dead_reuse_kernel_partial.
 
-(* a connection on which close() was called is handed out again: the checkout listener raises
-   InvalidatePoolError, the invalidation's close() raises BaseException, the record keeps the
-   connection and goes back to the pool through the garbage-collected fairy *)
-Theorem c26_no_dead_reuse_refuted_baseexception_from_close : exists cf fl ops c s',
-  step cf OConnect 1 (run cf ops (init cf fl)) = (Ok (Z.of_nat c), s') /\ 0 < c_nclose s' c.
-Proof.
-  exists (mkcfg KQueue 2 0 false (-1) true true RRollback true), [0; 4; 2], [(OConnect, 1)], 0%nat.
-  eexists. split; [vm_compute; reflexivity|vm_compute; reflexivity].
-Qed.
-Print Assumptions c26_no_dead_reuse_refuted_baseexception_from_close.
+(* fixed region (d50803e; former refutation witness): the checkout listener raises InvalidatePoolError,
+   the invalidation's close() raises BaseException; the next checkout no longer gets that connection *)
+Example c26_ex_fixed_closed_connection_not_reused :
+  let cf := mkcfg KQueue 2 0 false (-1) true true RRollback true in
+  exists c s', step cf OConnect 1 (run cf [(OConnect, 1)] (init cf [0; 4; 2])) = (Ok (Z.of_nat c), s') /\
+               c_nclose s' c = 0 /\ c_nclose s' 0 = 1.
+Proof. eexists 1%nat. eexists. split; [vm_compute; reflexivity|vm_compute; auto]. Qed.
 
 (* equal time stamps (the clock does not advance between the state changes): a soft-invalidated
    connection, and one older than a pool-wide invalidation, are handed out again - the weakness the
